@@ -6,7 +6,7 @@ from typing import Literal
 import argon2
 from argon2.exceptions import InvalidHashError, VerifyMismatchError
 
-from libpass._utils.bytes import StrOrBytes, as_bytes, as_str
+from libpass._utils.bytes import StrOrBytes, as_bytes, hash_as_str
 from libpass.hashers.abc import PasswordHasher
 from libpass.inspect.phc import inspect_phc
 from libpass.inspect.phc.defs import Argon2PHC
@@ -42,7 +42,7 @@ class Argon2Hasher(PasswordHasher):
         return False
 
     def identify(self, hash: StrOrBytes) -> bool:
-        return inspect_phc(hash=as_str(hash), definition=Argon2PHC) is not None
+        return inspect_phc(hash=hash_as_str(hash), definition=Argon2PHC) is not None
 
     def needs_update(self, hash: StrOrBytes) -> bool:
-        return self._hasher.check_needs_rehash(hash=as_str(hash))
+        return self._hasher.check_needs_rehash(hash=hash_as_str(hash))
